@@ -1,6 +1,8 @@
 (* Engine `subhist` (C04, C06), model side: replays one script line on the extracted SubBook LTS.
    Same line protocol as harness/src/bin/subhist.rs:
-     in : K<cap> C<nconns> step step ...
+     in : [E<server|tower>] K<cap> C<nconns> step step ...
+          (E = the entry point the REAL server is assembled through; the model is entry-point independent -- one
+           semaphore per connection, Model/SubBook.v -- and ignores the token)
      out: {"c":[[frames of conn 0],..],"end":[..],"r":[result of every step]}
    A script step is a macro over model steps (accept = Accept1;Accept2, send = SendCheck;SendEnqueue,
    return = HandlerReturn;CloseNotify; ab,s,k|d = AbandonCall; dp,s = DropPending); after every script step the writer drains all queues (drain_trace), which is
@@ -39,6 +41,7 @@ let handle old line =
   List.iter (fun tok ->
       if tok.[0] = 'K' then cap := int_of_string (String.sub tok 1 (String.length tok - 1))
       else if tok.[0] = 'C' then nconns := int_of_string (String.sub tok 1 (String.length tok - 1))
+      else if tok.[0] = 'E' then ()
       else steps := tok :: !steps) (split_ws line);
   let steps = List.rev !steps in
   let s = ref (init (List.init !nconns (fun _ -> nat_of_int !cap)) (n_of_int id_base) N0) in
